@@ -72,6 +72,11 @@ func binlogValue(col string, v driver.Value) interface{} {
 		return nil
 	}
 	switch col {
+	case "seen":
+		// go-mysql delivers DATETIME(6) as text
+		if t, ok := v.(time.Time); ok {
+			return t.Format("2006-01-02 15:04:05.000000")
+		}
 	case "age":
 		return int32(v.(int64))
 	case "active":
@@ -290,14 +295,25 @@ func liveBody(c *runner.Ctx) {
 				} else {
 					err = plain.Query(context.Background(), &rows, q.filter, nil)
 				}
-			} else if q.single {
-				var u *User
-				err = ldb.QueryRow(ctx, &u, q.filter, nil)
-				if u != nil {
-					rows = []*User{u}
-				}
 			} else {
-				err = ldb.Query(ctx, &rows, q.filter, nil)
+				// the caller's filter map is its own: it is reused (overwritten)
+				// as soon as the query has returned
+				f := sqlgen.Filter{}
+				for k, v := range q.filter {
+					f[k] = v
+				}
+				if q.single {
+					var u *User
+					err = ldb.QueryRow(ctx, &u, f, nil)
+					if u != nil {
+						rows = []*User{u}
+					}
+				} else {
+					err = ldb.Query(ctx, &rows, f, nil)
+				}
+				for k := range f {
+					f[k] = int64(-12345)
+				}
 			}
 			q.runs++
 			q.lastErr = errKind(err)
@@ -416,7 +432,7 @@ func liveBody(c *runner.Ctx) {
 			nick = strp("bc")
 		}
 		u := &User{Digest: []byte([]string{"d1", "d2"}[c.Choose(2, "write-digest")]), Id: id, OrgId: int64(1 + c.Choose(2, "write-org")), Name: []string{"ann", "bob", "a", "ab"}[c.Choose(4, "write-name")], Nick: nick,
-			Age: int32(20 + 10*c.Choose(2, "write-age")), Kind: Kind([]string{"k1", "k2"}[c.Choose(2, "write-kind")]), Active: c.Choose(2, "write-active") == 1}
+			Age: int32(20 + 10*c.Choose(2, "write-age")), Kind: Kind([]string{"k1", "k2"}[c.Choose(2, "write-kind")]), Active: c.Choose(2, "write-active") == 1, Boss: []int64{0, 0, 5, 7}[c.Choose(4, "write-boss")], Seen: seenAt(c.Choose(4, "write-seen"))}
 		var err error
 		op := []string{"upsert", "update", "delete", "insert", "multi-update", "multi-delete", "multi-insert"}[c.Choose(7, "write-op")]
 		switch op {
